@@ -88,6 +88,6 @@ KERNELS = [
       {"a": ("a", L32("N")), "b": ("b", L32("N")), "swap": ("swap", CH)}, "`ct_array32_maybe_set` (`[i32; N]` on the u32 bit patterns)",
       bits_types={"i32": "u32"}, result=lambda tr, st, ret, out, ind: st.vars['a'].t),
 ]
-HEADER = "import CxVerif.Impl.ConstantTime\nnamespace Cx.Extracted.KernelsCT\nopen Cx Cx.Impl.CT\n"
+HEADER = "import CxVerif.Impl.ConstantTime\nnamespace Cx.Extracted.KernelsCT\nopen Cx Cx.Impl.CT\nset_option autoImplicit false\n"
 FOOTER = "end Cx.Extracted.KernelsCT\n"
 LEAN_FILE = "KernelsCT"
